@@ -71,12 +71,36 @@ func ifCond(c, a, b string) (string, string, string) {
 	return c, a, b
 }
 
+// hold keeps v alive while later operands of the same expression are
+// evaluated: a let emitted by them must not shadow a name that v's text uses.
+// The returned function releases it.
+func (t *tr) hold(v *val) func() {
+	t.temps = append(t.temps, v)
+	n := len(t.temps)
+	return func() { t.temps = t.temps[:n-1] }
+}
+
+// evalAll evaluates the expressions left to right, holding the earlier values.
+// Values of pointers must be read (valueOf) only AFTER all of them are
+// evaluated: that is when the Go callee dereferences them.
+func (t *tr) evalAll(es ...ast.Expr) []*val {
+	var vs []*val
+	for _, e := range es {
+		v := t.eval(e)
+		vs = append(vs, v)
+		defer t.hold(v)()
+	}
+	return vs
+}
+
 func (t *tr) evalBinary(e *ast.BinaryExpr) *val {
 	switch e.Op {
 	case token.LAND, token.LOR:
 		x := t.eval(e.X)
 		n := len(t.lines)
+		rel := t.hold(x)
 		y := t.eval(e.Y)
+		rel()
 		if len(t.lines) != n {
 			t.fail("the right operand of %s has side effects: %s", e.Op, exprText(e.Y))
 		}
@@ -98,7 +122,9 @@ func (t *tr) evalBinary(e *ast.BinaryExpr) *val {
 					if !ok || (k != "0" && k != "1") || (e.Op != token.EQL && e.Op != token.NEQ) {
 						t.fail("a Bit result must be compared with 0 or 1 by == or !=: %s", exprText(e))
 					}
+					rel := t.hold(recv)
 					i := t.eval(ce.Args[0])
+					rel()
 					t.exactInt(i, "bit index")
 					b := "Z.testbit " + par(t.valueOf(recv)) + " " + par(t.asZ(i))
 					if (k == "1") != (e.Op == token.EQL) {
@@ -114,6 +140,13 @@ func (t *tr) evalBinary(e *ast.BinaryExpr) *val {
 					if !ok {
 						t.fail("a Cmp/Sign result must be compared with an integer literal: %s", exprText(e))
 					}
+					var y *val
+					if len(ce.Args) == 1 && se.Sel.Name == "Cmp" {
+						// (the receiver is dereferenced by Cmp, i.e. after the argument is evaluated)
+						rel := t.hold(recv)
+						y = t.eval(ce.Args[0])
+						rel()
+					}
 					a := t.valueOf(recv)
 					if se.Sel.Name == "Sign" {
 						if len(ce.Args) != 0 {
@@ -124,7 +157,6 @@ func (t *tr) evalBinary(e *ast.BinaryExpr) *val {
 					if len(ce.Args) != 1 {
 						t.fail("Cmp takes one argument")
 					}
-					y := t.eval(ce.Args[0])
 					if y.t.k != kZ {
 						t.fail("Cmp argument of type %s", y.t)
 					}
@@ -132,7 +164,8 @@ func (t *tr) evalBinary(e *ast.BinaryExpr) *val {
 				}
 			}
 		}
-		x, y := t.eval(e.X), t.eval(e.Y)
+		vs := t.evalAll(e.X, e.Y)
+		x, y := vs[0], vs[1]
 		switch {
 		case x.t.k == kByte && (y.t.k == kByte || y.t.k == kInt):
 			return &val{t: tBool, e: t.relZ(e.Op, "0", x.e, zLit(y.e))}
@@ -154,7 +187,8 @@ func (t *tr) evalBinary(e *ast.BinaryExpr) *val {
 		}
 		t.fail("unsupported comparison %s (operand types %s, %s)", exprText(e), x.t, y.t)
 	case token.ADD, token.SUB, token.MUL, token.QUO, token.REM:
-		x, y := t.eval(e.X), t.eval(e.Y)
+		vs := t.evalAll(e.X, e.Y)
+		x, y := vs[0], vs[1]
 		if t.g.loops && x.t.k == kInt && y.t.k == kInt {
 			return t.intArith(e.Op, x, y, e)
 		}
@@ -172,7 +206,8 @@ func (t *tr) evalBinary(e *ast.BinaryExpr) *val {
 		}
 		t.fail("unsupported addition %s", exprText(e))
 	case token.AND, token.OR, token.XOR:
-		x, y := t.eval(e.X), t.eval(e.Y)
+		vs := t.evalAll(e.X, e.Y)
+		x, y := vs[0], vs[1]
 		if x.t.k == kByte && (y.t.k == kByte || y.t.k == kInt) {
 			return &val{t: tByte, e: t.byteOp(e.Op, x.e, y)}
 		}
@@ -238,6 +273,7 @@ func (t *tr) evalIndex(e *ast.IndexExpr) *val {
 		// is only meaningful under the callee's length guarantee (reported).
 		i := t.constIndex(e.Index, 0)
 		c := t.newCell("nth "+strconv.Itoa(i)+" "+par(x.e)+" 0", "", oLocal)
+		c.noWrite = "it is an element of a slice that is a value for the translator (" + exprText(e.X) + ")" // (the write would not reach the list)
 		return &val{t: tZ, c: c}
 	}
 	t.fail("unsupported index expression %s on %s", exprText(e), x.t)
@@ -279,6 +315,7 @@ func (t *tr) evalSlice(e *ast.SliceExpr) *val {
 			t.fail("slice bounds out of order")
 		}
 	}
+	spare := x.spare || e.High != nil // (views of array variables are refused by append anyway)
 	if x.c != nil && x.t.k != kSlice {
 		// view of an array's storage
 		return &val{t: tSlice, c: x.c, lo: lo, hi: hi}
@@ -296,13 +333,31 @@ func (t *tr) evalSlice(e *ast.SliceExpr) *val {
 	b := par(t.bytesOf(x))
 	switch {
 	case lo == 0 && hi < 0:
-		return &val{t: tSlice, e: t.bytesOf(x)}
+		return &val{t: tSlice, e: t.bytesOf(x), spare: spare}
 	case lo == 0:
-		return &val{t: tSlice, e: "firstn " + strconv.Itoa(hi) + " " + b}
+		return &val{t: tSlice, e: "firstn " + strconv.Itoa(hi) + " " + b, spare: spare}
 	case hi < 0:
-		return &val{t: tSlice, e: "skipn " + strconv.Itoa(lo) + " " + b}
+		return &val{t: tSlice, e: "skipn " + strconv.Itoa(lo) + " " + b, spare: spare}
 	}
-	return &val{t: tSlice, e: "firstn " + strconv.Itoa(hi-lo) + " (skipn " + strconv.Itoa(lo) + " " + b + ")"}
+	return &val{t: tSlice, e: "firstn " + strconv.Itoa(hi-lo) + " (skipn " + strconv.Itoa(lo) + " " + b + ")", spare: spare}
+}
+
+// heldByList: the pointer v was put into a slice literal, which the translator
+// keeps as a list of VALUES: a later write through v would not reach it.
+func (t *tr) heldByList(v *val) {
+	if v.el != nil || v.c == nil {
+		t.fail("a pointer to a slice element is stored in a slice literal: aliasing between slices is not modelled")
+	}
+	t.setNoWrite(v.c, "its pointer is held by a slice literal (a list of values for the translator)")
+}
+
+// setNoWrite forbids in-place writes to c from here on (undone by rollback).
+func (t *tr) setNoWrite(c *cell, why string) {
+	if c.noWrite != "" {
+		return
+	}
+	t.log = append(t.log, logEnt{undo: func() { c.noWrite = "" }})
+	c.noWrite = why
 }
 
 func (t *tr) zeroArr(ty *typ) *val {
@@ -321,12 +376,12 @@ func (t *tr) evalComposite(e *ast.CompositeLit) *val {
 		return t.zeroArr(ty)
 	case kZList:
 		var parts []string
-		for _, el := range e.Elts {
-			v := t.eval(el)
+		for _, v := range t.evalAll(e.Elts...) {
 			if v.t.k != kZ {
 				t.fail("list element of type %s", v.t)
 			}
 			parts = append(parts, t.valueOf(v))
+			t.heldByList(v)
 		}
 		return &val{t: tZList, e: "[" + strings.Join(parts, "; ") + "]"}
 	case kList:
@@ -334,12 +389,14 @@ func (t *tr) evalComposite(e *ast.CompositeLit) *val {
 			break
 		}
 		var parts []string
-		for _, el := range e.Elts {
-			v := t.eval(el)
+		for _, v := range t.evalAll(e.Elts...) {
 			if !compat(ty.elem, v.t) {
 				t.fail("list element of type %s, expected %s", v.t, ty.elem)
 			}
 			parts = append(parts, t.valueOf(v))
+			if intElem(ty.elem) {
+				t.heldByList(v)
+			}
 		}
 		return &val{t: ty, e: "[" + strings.Join(parts, "; ") + "]"}
 	case kStruct:
